@@ -279,4 +279,284 @@ theorem foldl_addAlarm (as : List VAlarm) (s : State) :
       | absFloating w =>
         simp [VAlarm.isAbsolute, VAlarm.isStartRel, VAlarm.isEndRel, ht, TriggerV.isAbs]
 
+
+/-! ### `AlarmTime.is_active` / `AlarmTime.trigger` as decision tables -/
+
+/-- closed form of `is_active` in terms of the effective acknowledgement, the snooze and the raw trigger -/
+def isActiveSpec (ack snooze : Option Int) (trig : Trig) : Except AErr Bool :=
+  match ack with
+  | none => .ok true
+  | some k =>
+    match snooze, trig with
+    | some s, .aware t => .ok (decide (s > k) || decide (t > k))
+    | some s, _ => if s > k then .ok true else .error .localTimezoneMissing
+    | none, .aware t => .ok (decide (t > k))
+    | none, _ => .error .localTimezoneMissing
+
+theorem isActive_eq_spec (a : AlarmTime) : a.isActive = isActiveSpec a.acknowledged a.snooze a.trig := by
+  unfold AlarmTime.isActive isActiveSpec AlarmTime.trigger
+  cases a.acknowledged with
+  | none => rfl
+  | some k =>
+    cases a.snooze with
+    | none => cases a.trig <;> simp [toDatetime]
+    | some s =>
+      cases a.trig with
+      | aware t =>
+        simp only [toDatetime]
+        by_cases h1 : s > k
+        · simp [h1]
+        · by_cases h2 : s > t
+          · have h3 : ¬ t > k := by omega
+            simp [h1, h2, h3]
+          · simp [h1, h2]
+      | floating w => by_cases h1 : s > k <;> simp [toDatetime, h1]
+      | date d => by_cases h1 : s > k <;> simp [toDatetime, h1]
+
+/-! ### shape of `times` -/
+
+theorem flatMap_congr' {α β : Type} {l : List α} {f g : α → List β} (h : ∀ a ∈ l, f a = g a) :
+    l.flatMap f = l.flatMap g := by
+  induction l with
+  | nil => rfl
+  | cons x xs ih =>
+    rw [List.flatMap_cons, List.flatMap_cons, h x List.mem_cons_self,
+      ih (fun a ha => h a (List.mem_cons_of_mem _ ha))]
+
+/-- the pair the property talks about: which alarm, at what time -/
+def AlarmTime.key (x : AlarmTime) : VAlarm × Trig := (x.alarm, x.trig)
+
+/-- alarm by alarm: end-relative alarms, start-relative alarms, absolute alarms (the order of `times`) -/
+def expected (start end_ : Option Trig) (as : List VAlarm) : List (VAlarm × Trig) :=
+  (as.filter VAlarm.isEndRel).flatMap (expectedRel end_) ++
+  (as.filter VAlarm.isStartRel).flatMap (expectedRel start) ++
+  (as.filter VAlarm.isAbsolute).flatMap expectedAbs
+
+theorem relativeTimes_key (localize : Int → Int) (s : State) (x : Trig) (as : List VAlarm) :
+    (relativeTimes localize s x as).map AlarmTime.key =
+      (as.flatMap (expectedRel (some x))).map (fun q => (q.1, applyLocal localize s.localTz q.2)) := by
+  unfold relativeTimes
+  rw [List.map_flatMap, List.map_flatMap]
+  apply flatMap_congr'
+  intro a _
+  unfold expectedRel
+  cases a.trigger with
+  | none => rfl
+  | some t =>
+    cases t with
+    | rel td => simp [repeatTimes_eq_series, List.map_map, Function.comp_def, AlarmTime.key, alarmTime]
+    | absAware i => rfl
+    | absFloating w => rfl
+
+theorem absoluteTimes_key (localize : Int → Int) (s : State)
+    (hwf : ∀ a ∈ s.absoluteAlarms, a.isAbsolute = true) :
+    (absoluteTimes localize s).map AlarmTime.key =
+      (s.absoluteAlarms.flatMap expectedAbs).map (fun q => (q.1, applyLocal localize s.localTz q.2)) := by
+  unfold absoluteTimes
+  rw [List.map_flatMap, List.map_flatMap]
+  apply flatMap_congr'
+  intro a ha
+  have := hwf a ha
+  unfold expectedAbs
+  unfold VAlarm.isAbsolute at this
+  cases ht : a.trigger with
+  | none => rfl
+  | some t =>
+    rw [ht] at this
+    simp [this, repeatTimes_eq_series, List.map_map, Function.comp_def, AlarmTime.key, alarmTime]
+
+/-- `times` succeeds exactly when no needed anchor is missing -/
+theorem times_ok_iff (localize : Int → Int) (s : State) :
+    (∃ ts, times localize s = .ok ts) ↔
+      (s.end_ ≠ none ∨ s.endAlarms = []) ∧ (s.start ≠ none ∨ s.startAlarms = []) := by
+  unfold times endTimes startTimes
+  cases s.end_ <;> cases s.start <;> cases he : s.endAlarms <;> cases hs : s.startAlarms <;> simp
+
+theorem times_error (localize : Int → Int) (s : State) (e : AErr) (h : times localize s = .error e) :
+    (e = .componentEndMissing ∧ s.end_ = none ∧ s.endAlarms ≠ []) ∨
+    (e = .componentStartMissing ∧ s.start = none ∧ s.startAlarms ≠ [] ∧ (s.end_ ≠ none ∨ s.endAlarms = [])) := by
+  unfold times endTimes startTimes at h
+  cases hen : s.end_ <;> cases hst : s.start <;> cases he : s.endAlarms <;> cases hs : s.startAlarms <;>
+    simp_all <;> exact h.symm
+
+theorem times_ok_form (localize : Int → Int) (s : State) (ts : List AlarmTime)
+    (h : times localize s = .ok ts) :
+    ∃ es ss, endTimes localize s = .ok es ∧ startTimes localize s = .ok ss ∧
+      ts = es ++ ss ++ absoluteTimes localize s := by
+  unfold times at h
+  cases he : endTimes localize s with
+  | error e => rw [he] at h; cases h
+  | ok es =>
+    cases hs : startTimes localize s with
+    | error e => rw [he, hs] at h; cases h
+    | ok ss =>
+      rw [he, hs] at h
+      injection h with h
+      exact ⟨es, ss, rfl, rfl, h.symm⟩
+
+theorem endTimes_key (localize : Int → Int) (s : State) (es : List AlarmTime)
+    (h : endTimes localize s = .ok es) :
+    es.map AlarmTime.key =
+      (s.endAlarms.flatMap (expectedRel s.end_)).map (fun q => (q.1, applyLocal localize s.localTz q.2)) := by
+  unfold endTimes at h
+  cases hen : s.end_ with
+  | none =>
+    rw [hen] at h
+    cases hl : s.endAlarms with
+    | nil => simp [hl] at h; subst h; simp
+    | cons a as => simp [hl] at h
+  | some x =>
+    rw [hen] at h
+    injection h with h
+    subst h
+    exact relativeTimes_key localize s x _
+
+theorem startTimes_key (localize : Int → Int) (s : State) (ss : List AlarmTime)
+    (h : startTimes localize s = .ok ss) :
+    ss.map AlarmTime.key =
+      (s.startAlarms.flatMap (expectedRel s.start)).map (fun q => (q.1, applyLocal localize s.localTz q.2)) := by
+  unfold startTimes at h
+  cases hst : s.start with
+  | none =>
+    rw [hst] at h
+    cases hl : s.startAlarms with
+    | nil => simp [hl] at h; subst h; simp
+    | cons a as => simp [hl] at h
+  | some x =>
+    rw [hst] at h
+    injection h with h
+    subst h
+    exact relativeTimes_key localize s x _
+
+/-- state-level form of the C14 specification -/
+theorem times_key (localize : Int → Int) (s : State) (ts : List AlarmTime)
+    (hwf : ∀ a ∈ s.absoluteAlarms, a.isAbsolute = true)
+    (h : times localize s = .ok ts) :
+    ts.map AlarmTime.key =
+      (s.endAlarms.flatMap (expectedRel s.end_) ++ s.startAlarms.flatMap (expectedRel s.start) ++
+        s.absoluteAlarms.flatMap expectedAbs).map (fun q => (q.1, applyLocal localize s.localTz q.2)) := by
+  obtain ⟨es, ss, he, hs, rfl⟩ := times_ok_form localize s ts h
+  simp only [List.map_append]
+  rw [endTimes_key localize s es he, startTimes_key localize s ss hs, absoluteTimes_key localize s hwf]
+
+/-- the state `Alarms(component)` followed by `set_local_timezone` -/
+def componentState (p : Parent) (start end_ : Option Trig) (as : List VAlarm) (tz : Bool) : State :=
+  setLocalTimezone (ofComponent p start end_ as) tz
+
+theorem componentState_eq (p : Parent) (start end_ : Option Trig) (as : List VAlarm) (tz : Bool) :
+    componentState p start end_ as tz =
+      { absoluteAlarms := as.filter VAlarm.isAbsolute
+        startAlarms := as.filter VAlarm.isStartRel
+        endAlarms := as.filter VAlarm.isEndRel
+        start := start
+        end_ := end_
+        lastAck := if p.isThunderbird then p.lastack else p.dtstamp
+        snooze := if p.isThunderbird then p.snoozeTime else none
+        localTz := tz } := by
+  unfold componentState ofComponent addComponent setLocalTimezone
+  rw [foldl_addAlarm]
+  cases p.isThunderbird <;> simp [setStart, setEnd, acknowledgeUntil, snoozeUntil]
+
+/-- every alarm time carries the state's acknowledgement and snooze, and an aware trigger once a local
+    time zone is set -/
+theorem times_mem (localize : Int → Int) (s : State) (ts : List AlarmTime)
+    (h : times localize s = .ok ts) (x : AlarmTime) (hx : x ∈ ts) :
+    x.lastAck = s.lastAck ∧ x.snooze = s.snooze ∧ (s.localTz = true → x.trig.isAware = true) := by
+  have key : ∀ (a : VAlarm) (t : Trig), (alarmTime localize s a t).lastAck = s.lastAck ∧
+      (alarmTime localize s a t).snooze = s.snooze ∧
+      (s.localTz = true → (alarmTime localize s a t).trig.isAware = true) := by
+    intro a t
+    refine ⟨rfl, rfl, ?_⟩
+    intro hl
+    cases t <;> simp [alarmTime, applyLocal, hl, Trig.isAware]
+  have hrel : ∀ (anchor : Trig) (l : List VAlarm), x ∈ relativeTimes localize s anchor l →
+      x.lastAck = s.lastAck ∧ x.snooze = s.snooze ∧ (s.localTz = true → x.trig.isAware = true) := by
+    intro anchor l hm
+    unfold relativeTimes at hm
+    rw [List.mem_flatMap] at hm
+    obtain ⟨a, _, hm⟩ := hm
+    split at hm
+    · rw [List.mem_map] at hm
+      obtain ⟨t, _, rfl⟩ := hm
+      exact key a t
+    · cases hm
+  obtain ⟨es, ss, he, hs, rfl⟩ := times_ok_form localize s ts h
+  rw [List.mem_append, List.mem_append] at hx
+  rcases hx with (hx | hx) | hx
+  · unfold endTimes at he
+    split at he
+    · split at he
+      · injection he with he; subst he; cases hx
+      · cases he
+    · injection he with he; subst he; exact hrel _ _ hx
+  · unfold startTimes at hs
+    split at hs
+    · split at hs
+      · injection hs with hs; subst hs; cases hx
+      · cases hs
+    · injection hs with hs; subst hs; exact hrel _ _ hx
+  · unfold absoluteTimes at hx
+    rw [List.mem_flatMap] at hx
+    obtain ⟨a, _, hm⟩ := hx
+    split at hm
+    · rw [List.mem_map] at hm
+      obtain ⟨t, _, rfl⟩ := hm
+      exact key a t
+    · cases hm
+
+/-- moving the component-level acknowledgement changes nothing but the `lastAck` of every alarm time -/
+theorem times_acknowledgeUntil (localize : Int → Int) (s : State) (k : Option Int) :
+    times localize (acknowledgeUntil s k) =
+      (times localize s).map (fun ts => ts.map (fun x => { x with lastAck := k })) := by
+  have hat : ∀ a t, alarmTime localize (acknowledgeUntil s k) a t =
+      { alarmTime localize s a t with lastAck := k } := by intro a t; rfl
+  have hrel : ∀ x l, relativeTimes localize (acknowledgeUntil s k) x l =
+      (relativeTimes localize s x l).map (fun x => { x with lastAck := k }) := by
+    intro x l
+    unfold relativeTimes
+    rw [List.map_flatMap]
+    apply flatMap_congr'
+    intro a _
+    split <;> simp [List.map_map, Function.comp_def, hat]
+  have habs : absoluteTimes localize (acknowledgeUntil s k) =
+      (absoluteTimes localize s).map (fun x => { x with lastAck := k }) := by
+    unfold absoluteTimes
+    rw [List.map_flatMap]
+    apply flatMap_congr'
+    intro a _
+    split <;> simp [List.map_map, Function.comp_def, hat]
+  have hen : (acknowledgeUntil s k).end_ = s.end_ := rfl
+  have hst : (acknowledgeUntil s k).start = s.start := rfl
+  have hea : (acknowledgeUntil s k).endAlarms = s.endAlarms := rfl
+  have hsa : (acknowledgeUntil s k).startAlarms = s.startAlarms := rfl
+  unfold times endTimes startTimes
+  rw [habs, hen, hst, hea, hsa]
+  cases s.end_ <;> cases s.start <;> cases s.endAlarms <;> cases s.startAlarms <;>
+    simp [Except.map, hrel]
+
+
+theorem expectedRel_fst (anchor : Option Trig) (a : VAlarm) (q : VAlarm × Trig)
+    (h : q ∈ expectedRel anchor a) : q.1 = a := by
+  unfold expectedRel at h
+  split at h
+  · rw [List.mem_map] at h
+    obtain ⟨_, _, rfl⟩ := h
+    rfl
+  · cases h
+
+theorem expectedAbs_fst (a : VAlarm) (q : VAlarm × Trig) (h : q ∈ expectedAbs a) : q.1 = a := by
+  unfold expectedAbs at h
+  split at h
+  · split at h
+    · rw [List.mem_map] at h
+      obtain ⟨_, _, rfl⟩ := h
+      rfl
+    · cases h
+  · cases h
+
+theorem trigger_of_class (a : VAlarm) (h : a.isEndRel = true ∨ a.isStartRel = true ∨ a.isAbsolute = true) :
+    a.trigger ≠ none := by
+  intro hn
+  simp [VAlarm.isEndRel, VAlarm.isStartRel, VAlarm.isAbsolute, hn] at h
+
 end ICal.Alarms
